@@ -296,6 +296,21 @@ def valgrind_stage(R, res, spec, base_args, ncases, first, env=None, slow=60, wa
     return res.cases_done - before
 
 
+MSAN_ENV = {'MSAN_OPTIONS': 'abort_on_error=1:halt_on_error=1:print_stats=0:allocator_may_return_null=1:poison_in_dtor=1'}
+
+
+def msan_stage(R, res, spec, base_args, ncases, first, env=None, slow=4, wall=None):
+    """run ncases of a harness built with clang -fsanitize=memory (library, harness and oracle all instrumented; zstd switches its assembly off and
+    poisons its workspace itself in such builds): a branch, address or libc call (memcmp of two outputs included) that depends on an uninitialised
+    byte stops the process and becomes the key san:memory:use-of-uninitialized-value:<first frame in the repository>."""
+    kw = dict(spec[2]) if len(spec) > 2 else {}
+    exe = build.build_harness(spec[0], 'msan', **kw)
+    menv = dict(env or {}, VERIF_SLOW=str(slow)); menv.update(MSAN_ENV)
+    before = res.cases_done
+    R.run_sharded(res, exe, base_args, ncases, env=menv, label=spec[0] + '/msan', variant='msan', first=first, wall=wall or (10800 if R.thorough else 1800))
+    return res.cases_done - before
+
+
 def _first_report_lines(err):
     lines = [l for l in err.split('\n') if l.strip()]
     keep = []
